@@ -33,6 +33,9 @@ type ReqCase struct {
 	BodyMode   string           `json:"body_mode"` // none | cl | chunked
 	BodySize   int              `json:"body_size"`
 	ChunkSizes []int            `json:"chunk_sizes,omitempty"`
+	// Wrapped: the agent runs with session tracking, websocket shim and banner enabled. A request that carries no
+	// cookies and does not address the shim path is none of their business and must arrive as it would otherwise.
+	Wrapped bool `json:"agent_with_sessions_shim_banner,omitempty"`
 }
 
 var (
@@ -270,8 +273,43 @@ func classify(c *ReqCase) (bool, []string) {
 }
 
 // runCase sends the request through the real binaries and compares what the backend got.
+var (
+	e2eWOnce sync.Once
+	e2eW     *vh.E2E
+	e2eWErr  error
+)
+
+func stackW(t vh.TB) *vh.E2E {
+	e2eWOnce.Do(func() {
+		e2eW, e2eWErr = vh.NewE2E([]string{"--session-cookie-name=agent-session", "--disable-ssl-for-test", "--shim-websockets", "--shim-path=shim",
+			"--inject-banner=<b>verif banner</b>"})
+	})
+	if e2eWErr != nil {
+		t.Fatalf("INFRA: cannot start stack: %v", e2eWErr)
+	}
+	return e2eW
+}
+
+// wrapCase restricts a generated request to those the session, shim and banner features have to leave alone.
+func wrapCase(c *ReqCase) {
+	c.Wrapped = true
+	var keep []vh.HeaderField
+	for _, f := range c.Fields {
+		if !strings.EqualFold(f.Name, "Cookie") {
+			keep = append(keep, f)
+		}
+	}
+	c.Fields = keep
+	if strings.HasPrefix(c.Target, "/shim") {
+		c.Target = "/x" + c.Target
+	}
+}
+
 func runCase(t vh.TB, c *ReqCase) vh.Outcome {
 	e := stack(t)
+	if c.Wrapped {
+		e = stackW(t)
+	}
 	nt, classes := classify(c)
 	o := vh.Outcome{NonTrivial: nt, Classes: classes}
 	tok := e.NewToken()
@@ -399,6 +437,10 @@ func runBatch(t vh.TB, b *Batch) vh.Outcome {
 	if len(b.Reqs) > 1 {
 		o.Classes = append(o.Classes, "concurrent-batch")
 	}
+	if len(b.Reqs) > 0 && b.Reqs[0].Wrapped {
+		o.Classes = append(o.Classes, "agent-with-sessions-shim-banner")
+		return stackW(t).Stack.Discount(o)
+	}
 	return stack(t).Stack.Discount(o)
 }
 
@@ -407,12 +449,20 @@ func TestPropRequestRoundTrip(t *testing.T) {
 		if e2e != nil {
 			e2e.Close()
 		}
+		if e2eW != nil {
+			e2eW.Close()
+		}
 	}()
 	vh.Rapid(t, vh.Scale(800, 30000), func(rt *rapid.T) {
 		var b Batch
 		n := rapid.SampledFrom([]int{1, 1, 1, 1, 2, 4, 6}).Draw(rt, "batch")
+		wrapped := rapid.IntRange(0, 3).Draw(rt, "wrappedAgent") == 0
 		for i := 0; i < n; i++ {
-			b.Reqs = append(b.Reqs, genCase(rt))
+			c := genCase(rt)
+			if wrapped {
+				wrapCase(&c)
+			}
+			b.Reqs = append(b.Reqs, c)
 		}
 		rec.Check(rt, &b, func() vh.Outcome { return runBatch(rt, &b) })
 	})
